@@ -108,6 +108,8 @@ def register(R):
   R.bounded_checks[P] = [
       ('bounded_rates', 'every ConfusionMatrixMetric vs independent re-implementation over all counts <= 4 (5 thorough)'),
       ('bounded_classification_api', 'ClassificationAggFn / one-shot functions vs brute force from raw examples (input types x averages)'),
+      ('bounded_topk_classification', 'top-k confusion-matrix metrics for k-lists with gaps vs predictions cut at k'),
+      ('bounded_thresholded_retrieval', 'ThresholdedRetrieval per-threshold precision/recall/f1 vs counting, negative sentinels, batches, merge'),
       ('bounded_retrieval', 'TopKRetrieval metrics vs per-row textbook definitions on ragged rankings'),
       ('bounded_rolling', 'rolling statistics vs numpy on the whole data, NaN patterns'),
   ]
